@@ -836,6 +836,48 @@ def oracle_int(case, impl):
     return None
 
 
+def oracle_sigwide(case):
+    """get_significant_inputs_of on circuits with 9-11 inputs whose outputs read two or three inputs (one of them with
+    index >= 8): Circuit, the TruthTable of the same function and the definition (the inputs the output depends on,
+    in increasing order) must agree"""
+    import random
+    from cirbo.core.circuit import Circuit, gate as G
+    from cirbo.core.truth_table import TruthTable
+    rng = random.Random(case['seed'])
+    n = case['n']
+    c = Circuit()
+    ins = [f'x{i}' for i in range(n)]
+    c.add_inputs(ins)
+    outs = []
+    for k in range(3):
+        sup = sorted(rng.sample(range(n - 3), rng.choice([1, 2])) + [rng.randrange(8, n)], reverse=bool(k % 2))
+        cur = ins[sup[0]]
+        for j, i in enumerate(sup[1:]):
+            l = f'g{k}_{j}'
+            c.emplace_gate(l, rng.choice([G.AND, G.OR, G.XOR, G.GT]), (cur, ins[i]))
+            cur = l
+        outs.append((cur, sorted(sup)))
+        c.mark_as_output(cur)
+    try:
+        tt = TruthTable(c.get_truth_table())
+        for j, (_, sup) in enumerate(outs):
+            got_c = list(c.get_significant_inputs_of(j))
+            got_t = list(tt.get_significant_inputs_of(j))
+            want = [i for i in sup if any(
+                c.evaluate_at([bool((v >> p) & 1) if q != i else False for q, p in ((q, sup.index(q) if q in sup else 0) for q in range(n))], j)
+                != c.evaluate_at([bool((v >> p) & 1) if q != i else True for q, p in ((q, sup.index(q) if q in sup else 0) for q in range(n))], j)
+                for v in range(1 << len(sup)))]
+            if got_t != want:
+                return f'TruthTable.get_significant_inputs_of: {n} inputs, output {j}: {got_t}, the definition gives {want}'
+            if got_c != want:
+                return (f'Circuit.get_significant_inputs_of: {n} inputs, output {j} reads {sup}: answered {got_c}, '
+                        f'TruthTable and the definition give {want}')
+    except Exception as e:  # noqa: BLE001
+        return f'Circuit.get_significant_inputs_of: raised {type(e).__name__} on a circuit with {n} inputs'
+    return None
+
+
+SIGWIDE_CASES = [{'kind': 'sigwide', 'n': n, 'seed': s} for n in (9, 10, 11) for s in range(3)]
 WIDE_CASES = [{'kind': 'intwide', 'op': op, 'in_len': il, 'out_len': ol, 'be': be}
               for op, il, ol in (('mul', 32, 64), ('mul', 40, 80), ('sq', 33, 66), ('add', 60, 61), ('id', 64, 64))
               for be in (False, True)]
@@ -918,6 +960,8 @@ def oracle(case):
         return oracle_utils(case)
     if k == 'intwide':
         return oracle_intwide(case)
+    if k == 'sigwide':
+        return oracle_sigwide(case)
     return None
 
 
